@@ -1,20 +1,7 @@
-"""C07 - key files: used verbatim, created once, rejected if malformed, never retained."""
-META = {
-    "level": "proof",
-    "externals": ["os.path", "os.urandom", "open"],
-    "trusted_base": [
-        "file model: open(p,'rb') raises OSError iff p is absent or unreadable, else read() returns its bytes; "
-        "open(p,'wb') raises OSError iff p is unwritable, else truncates; write appends",
-        "os.urandom(32) returns 32 bytes (next draw of the random stream)",
-        "os.path.expanduser is a deterministic function",
-    ],
-    "assumptions": [
-        "single thread; no other process changes the key file between open() and read() of one __load_key call",
-        "contexts are properly nested (requires refcount >= 1 on __exit__)",
-    ],
-    "explanation": "KeyFile methods verified against contracts with the ghost file system fs: path -> optional bytes; "
-                   "session-level claims are lemmas over those contracts (props/lemmas/c07.py).",
-}
+"""C07 - claim and bounded driver; statement in properties.jsonl, design in DESIGN.md section 7."""
+from props.meta import META as _M
+
+META = _M["C07"]
 
 try:
     from props.C07_rac import rac, replay   # bounded run-time contract driver (stand-in + replay harness)
